@@ -41,6 +41,14 @@ import (
 	"github.com/elk-language/elk/bitfield"
 	"github.com/elk-language/elk/types/checker"
 	"github.com/elk-language/elk/vm"
+
+	// native methods of Std::Elk::AST / Lexer / Parser / Diagnostic / Types (macro bodies call them at check
+	// time); the elk binary gets them through the root package, which a verif-tagged harness cannot import
+	_ "github.com/elk-language/elk/lexer/runtime"
+	_ "github.com/elk-language/elk/parser/ast/runtime"
+	_ "github.com/elk-language/elk/parser/runtime"
+	_ "github.com/elk-language/elk/position/diagnostic/runtime"
+	_ "github.com/elk-language/elk/types/runtime"
 )
 
 type method struct {
@@ -379,7 +387,46 @@ func clip(s string) string {
 	return s
 }
 
+// crashKind: "crash:<letters of the panic message>" for the outcome of a child that died, "" otherwise.
+// A crash at ANY setting (the limit-1 baseline included) is reported under this one kind, so that the
+// schedule-dependent and the schedule-independent manifestation of one panic have one key.
+func crashKind(o outcome) string {
+	if !strings.HasPrefix(o.diags, "CHILD CRASHED") {
+		return ""
+	}
+	msg := o.diags
+	if i := strings.Index(msg, "panic: "); i >= 0 {
+		msg = msg[i+7:]
+	} else if i := strings.Index(msg, "fatal error: "); i >= 0 {
+		msg = msg[i+13:]
+	}
+	if i := strings.IndexAny(msg, ":\n"); i >= 0 {
+		msg = msg[:i]
+	}
+	var b strings.Builder
+	dash := false
+	for _, c := range msg {
+		if (c >= 'a' && c <= 'z') || (c >= 'A' && c <= 'Z') {
+			b.WriteRune(c)
+			dash = false
+		} else if !dash && b.Len() > 0 {
+			b.WriteByte('-')
+			dash = true
+		}
+		if b.Len() >= 48 {
+			break
+		}
+	}
+	return "crash:" + strings.Trim(b.String(), "-")
+}
+
 func compare(base, o outcome) (string, string) {
+	if k := crashKind(base); k != "" {
+		return k, "the limit-1 GOMAXPROCS-1 run crashed: " + clip(base.diags)
+	}
+	if k := crashKind(o); k != "" {
+		return k, "crashed here (the limit-1 run did not): " + clip(o.diags)
+	}
 	if base.failed != o.failed {
 		return "verdict", fmt.Sprintf("baseline failed=%v, here failed=%v; diagnostics here: %s", base.failed, o.failed, clip(o.diags))
 	}
@@ -400,12 +447,22 @@ func main() {
 	defer hx.Flush()
 	dump, start, reps := "", 0, 1
 	fam, freps, one, oneLimit, oneProcs, oneLoad := 0, 1, "", 1, 1, false
+	pp, ppreps, ppin := 0, 1, 1 // post-pass family: programs, repetitions of the fresh-process settings, of the in-process lattice
 	for _, kv := range strings.Split(o.Extra, ",") {
 		if v, ok := strings.CutPrefix(kv, "fam="); ok {
 			fam, _ = strconv.Atoi(v)
 		}
 		if v, ok := strings.CutPrefix(kv, "freps="); ok {
 			freps, _ = strconv.Atoi(v)
+		}
+		if v, ok := strings.CutPrefix(kv, "pp="); ok {
+			pp, _ = strconv.Atoi(v)
+		}
+		if v, ok := strings.CutPrefix(kv, "ppreps="); ok {
+			ppreps, _ = strconv.Atoi(v)
+		}
+		if v, ok := strings.CutPrefix(kv, "ppin="); ok {
+			ppin, _ = strconv.Atoi(v)
 		}
 		if v, ok := strings.CutPrefix(kv, "one="); ok {
 			one = v
@@ -441,15 +498,20 @@ func main() {
 	type prog struct {
 		id, desc, src string
 		fresh         bool // every run in a fresh child process (names are fresh only once per process)
+		pp            bool // post-pass family: fresh children (with run) + in-process check-only lattice
 	}
 	var progs []prog
 	for i, path := range hx.ReadInputs(o.Input) { // corpus: file names of .elk programs
 		text, err := os.ReadFile(path)
 		if err == nil {
 			// corpus programs run in process; files named fresh_* run, like the family programs, in fresh processes only
-			progs = append(progs, prog{fmt.Sprintf("c%d", i), "corpus " + filepath.Base(path), string(text), false})
+			progs = append(progs, prog{fmt.Sprintf("c%d", i), "corpus " + filepath.Base(path), string(text), false, false})
 			if strings.HasPrefix(filepath.Base(path), "fresh_") {
 				progs[len(progs)-1].fresh = true
+			}
+			if strings.HasPrefix(filepath.Base(path), "postpass_") {
+				progs[len(progs)-1].fresh = true
+				progs[len(progs)-1].pp = true
 			}
 		}
 	}
@@ -459,14 +521,21 @@ func main() {
 		// method names are unique per program: all programs of one harness process share the runtime's
 		// Kernel singleton, where same-named methods of an earlier program would be redefined
 		src, k, nerr := genProgram(r, withErr, fmt.Sprintf("g%d", i))
-		progs = append(progs, prog{fmt.Sprintf("g%d", i), fmt.Sprintf("methods=%d injected_errors=%d", k, nerr), src, false})
+		progs = append(progs, prog{fmt.Sprintf("g%d", i), fmt.Sprintf("methods=%d injected_errors=%d", k, nerr), src, false, false})
 	}
 	// the family has its own generator state: the g-programs of a seed do not depend on fam
 	rf := hx.NewRng(o.Seed ^ 0x5eedfa11)
 	for i := 0; i < fam; i++ {
 		sh := genFamShape(rf, i, o.Tier == "thorough")
 		src, nerr := genFamily(rf, sh, fmt.Sprintf("f%d", i))
-		progs = append(progs, prog{fmt.Sprintf("f%d", i), fmt.Sprintf("%s injected_errors=%d", sh, nerr), src, true})
+		progs = append(progs, prog{fmt.Sprintf("f%d", i), fmt.Sprintf("%s injected_errors=%d", sh, nerr), src, true, false})
+	}
+	// so has the post-pass family
+	rp := hx.NewRng(o.Seed ^ 0x9057a55)
+	for i := 0; i < pp; i++ {
+		sh := genPPShape(rp, i, o.Tier == "thorough")
+		src, det := genPostpass(rp, sh, fmt.Sprintf("k%d", i))
+		progs = append(progs, prog{fmt.Sprintf("k%d", i), fmt.Sprintf("%s %s", sh, det), src, true, true})
 	}
 	self, _ := os.Executable()
 	tmp, _ := os.MkdirTemp("", "c11fresh")
@@ -476,6 +545,11 @@ func main() {
 	fsettings := []fset{{100, 0}, {16, 0}, {1, 0}, {100, 4}}
 	if o.Tier == "thorough" {
 		fsettings = append(fsettings, fset{16, 4}, fset{1, 4}, fset{100, 2})
+	}
+	// post-pass family: completion order is what matters, so low limits (few slots, long bodies hold them) too
+	ppsettings := []fset{{100, 0}, {2, 0}, {3, 2}}
+	if o.Tier == "thorough" {
+		ppsettings = append(ppsettings, fset{1, 0}, fset{16, 0}, fset{2, 2}, fset{100, 4}, fset{4, 1})
 	}
 	for i, p := range progs {
 		if i < start {
@@ -497,6 +571,9 @@ func main() {
 			os.WriteFile(file, []byte(p.src), 0644)
 			run = func(l, pc int, load bool) outcome { return runFresh(self, file, l, pc, load) }
 			psettings, preps = fsettings, freps
+			if p.pp {
+				psettings, preps = ppsettings, ppreps
+			}
 		}
 		base = run(1, 1, false)
 		runs, res := 1, ""
@@ -513,6 +590,31 @@ func main() {
 					}
 				}
 			}
+		}
+		if p.pp && res == "" {
+			// in-process lattice, check + compile only (the program is never run in this process, so no runtime
+			// constant or method of it exists here); compared with the in-process limit-1 run
+			saved := norun
+			norun = true
+			baseIn := runOnce(p.id+".elk", p.src, 1, 1, false)
+			runs++
+			if kind, detail := compare(outcome{diags: base.diags, failed: base.failed}, baseIn); kind != "" {
+				res = fmt.Sprintf("DIFF inprocess,limit=1,procs=1 %s :: the in-process limit-1 check differs from the fresh-process one: %s", kind, detail)
+			}
+		inproc:
+			for rep := 0; rep < ppin && res == ""; rep++ {
+				for _, l := range limits {
+					for _, pc := range procs {
+						oc := runOnce(p.id+".elk", p.src, l, pc, rep%2 == 1)
+						runs++
+						if kind, detail := compare(baseIn, oc); kind != "" {
+							res = fmt.Sprintf("DIFF inprocess,limit=%d,procs=%d,rep=%d %s :: %s", l, pc, rep, kind, detail)
+							break inproc
+						}
+					}
+				}
+			}
+			norun = saved
 		}
 		if res == "" {
 			kind := "accepted"
